@@ -313,6 +313,11 @@ struct Gen {
 					o.da = D;
 					if(D < T.dmin || D > T.dmax) continue;
 					o.a = alive_slot(D);
+					if(D > 0 && !T.static_arrays && rng.chance(1, 5)) {
+						o.var = 1;  // into an array whose index base is 1; preferably one of the saved sizes
+						for(int i = 0; i < NSLOT; ++i)
+							if(M.at(D, i).alive && dims_equal(M.at(D, i), f.D, f.n) && rng.chance(2, 3)) o.a = i;
+					}
 				} else {
 					o.a = alive_slot(D);
 				}
@@ -459,6 +464,11 @@ struct Gen {
 				break;
 			}
 			case O_REF_ASSIGN: {
+				if(rng.chance(1, 3)) {  // from an array_ref over elements of the convertible type
+					o.var = 4 + rng.below(2);
+					o.v   = rval();
+					break;
+				}
 				o.b = -1;
 				for(int i = 0; i < NSLOT; ++i)
 					if(i != o.a && M.at(D, i).alive && M.at(D, i).same_extents(M.at(D, o.a)) && (o.b < 0 || rng.chance(1, 2))) o.b = i;
@@ -498,7 +508,8 @@ struct Gen {
 			case O_READ: {
 				MView v;
 				if(!find_view(D, o.a, -1, nullptr, false, o.ca, v)) continue;
-				o.var = rng.below(3);
+				o.var = rng.below(T.tracked_is_triv ? 5 : 3);
+				if(o.var >= 3 && v.count() == 0) o.var = 0;
 				break;
 			}
 			case O_COMPARE: {
